@@ -6,13 +6,19 @@ through operations; the observation point is `text.render(<tracing backend>)` (a
 operation.  Every operand is frozen (`repr` + trace + `str` + `len` + parts) before and after each call.
 
 tree ::= "chars" | {"y": name} | {"k": "text"|"tag"|"href"|"prot", "n": name, "u": url, "e": bool, "p": [tree...]}
+         ("nt": true on a tag / href node: the name / URL is given as a Text object instead of a str)
 case ::= {"op": "richtext", "tree": tree, "fan": bool, "ops": [op...]}
   fan = False: the operations are applied on top of one another (a history);
   fan = True : every operation is applied to the initial object (exhaustive single-step scope).
-op   ::= {"o": "add"|"radd"|"append"|"eq", "x": tree} | {"o": "join", "xs": [tree...]}
+operand ::= tree | {"self": true}        (the current object itself: t + t, t.append(t), t.join([t, t]), t == t)
+op   ::= {"o": "add"|"radd"|"append"|"eq", "x": operand} | {"o": "join", "xs": [operand...]}
+         (with "raw": true a string operand of add / append / join / add_period is handed over as a plain Python `str`)
+       | {"o": "eqnt", "v": "a"|null|5|[...]}          cur == v and v == cur for a Python value that is not a rich text
        | {"o": "slice", "i": int|null, "j": int|null} | {"o": "index", "i": int}
-       | {"o": "upper"|"lower"|"capfirst"|"capitalize"|"add_period"|"isalpha"}
+       | {"o": "upper"|"lower"|"capfirst"|"capitalize"|"isalpha"|"abbreviate"}
+       | {"o": "add_period"} | {"o": "add_period", "x": operand}       add_period() / add_period(period)
        | {"o": "split", "sep": str|null, "keep": bool|null, "pick": int|null}
+       | {"o": "split", "re": "delim"|"dashes", "keep": bool|null, "pick": int|null}   split at textutils.delimiter_re / re.compile('-+')
        | {"o": "startswith"|"endswith", "p": [str...]} | {"o": "contains", "s": str}
        | {"o": "slicetab"|"indextab", "lo": int, "hi": int}     (every slice / index with bounds in lo..hi, and None)
 """
@@ -35,40 +41,61 @@ THEOREMS = {
     'C08_len': 'len is the number of pairs, str their characters',
     'C08_slice': 'text[i:j] is the Python slice of the string of pairs for ALL integers i, j (and missing bounds); markup stays attached',
     'C08_index': 'text[i] is the one-pair slice, IndexError exactly when out of range',
-    'C08_case': 'upper/lower act pointwise, keep every markup stack, never change protected text; they commute with slicing and concatenation as objects',
+    'C08_case': 'upper/lower (ASCII case mapping) act pointwise, keep every markup stack, never change protected text; they commute with slicing and concatenation as objects',
     'C08_capfirst': 'capfirst = self[:1].upper() + self[1:] on the pairs; Protected untouched',
     'C08_capitalize': 'capitalize = self[:1].upper() + self[1:].lower() on the pairs; Protected untouched',
-    'C08_add_period': 'add_period appends a period inside the outermost markup iff the text is non-empty and does not end in a terminator',
+    'C08_add_period': 'add_period() appends a period inside the outermost markup iff the text is non-empty and does not end in a terminator',
     'C08_split': 'split at a one-character separator is the list split at the unprotected occurrences; split() is the non-empty pieces of the list split at unprotected white space (str.split()), however the white space is spread over parts; protected text and symbols are never split; join . split keeps the characters',
     'C08_prefix_suffix_contains': 'startswith / endswith / in are sound for the string of pairs (a reported match is spelled inside one markup)',
     'C08_partwise_neg': 'limit (documented behaviour): a multi-character separator / prefix / suffix / substring that straddles a markup boundary is not matched -- concrete witnesses; this is why split is proved for one-character separators and white space and startswith/endswith/in as soundness',
-    'C08_isalpha': 'isalpha iff non-empty and every pair an alphabetic character',
+    'C08_isalpha': 'isalpha (ASCII letters) iff non-empty and every pair an alphabetic character',
     'C08_render': 'rendering with the tracing backend returns the string of pairs, for the object built from any tree',
-    'C08_history': 'every finite sequence of operations applied on top of one another equals the same sequence of list operations on the string of pairs (induction over the history; normal form is an invariant)',
+    'C08_history': 'every finite sequence of operations applied on top of one another equals the same sequence of list operations on the string of pairs (induction over the history; normal form is an invariant) -- ASCII case mapping; C08_history_full: any case mapping',
+    'C08_tables_flags': 'regenerated constants: whitespace_re and delimiter_re are compiled with re.UNICODE only (\\s is the Unicode white space of the model), delimiter_re is ([\\s\\-])',
+    'C08_unicode_ascii_bridge': 'the ASCII fragment of the interpreter\'s upper / lower / isalpha tables is the ASCII case mapping the other theorems were first stated for',
+    'C08_unicode_tables': 'what the regenerated tables say about the witness characters: é É ǅ Cyrillic map one to one, ß ŉ İ have longer images, lower keeps ß, 毛 is a caseless letter',
+    'C08_case_full': 'upper/lower for ANY case mapping (the interpreter\'s Unicode tables, images longer than one character included): every unprotected character is replaced by its image, each character of the image keeps the markup of the character it came from; protected text, symbols, class untouched; commute with concatenation as objects',
+    'C08_case_slice_partial': 'slice-then-upper = upper-then-slice (and lower), as objects, and len is kept -- on the texts where every unprotected character has one-character images (decidable domain Flat.lenPreserving)',
+    'C08_case_slice_neg': 'limit: where an image is longer (ß -> SS) the length grows and case does not commute with slicing -- exactly as for Python strings; lower keeps ß (casefold would not)',
+    'C08_capfirst_capitalize_full': 'capfirst / capitalize for any case mapping: self[:1].upper() + self[1:](.lower()) on the pairs; Protected untouched; results are objects',
+    'C08_isalpha_full': 'isalpha for any letter test (the interpreter\'s str.isalpha table): non-empty and every pair a letter',
+    'C08_add_period_any': 'add_period(period) for ANY period (str, Text, Tag ...): appended inside the outermost markup iff the text is non-empty and not terminated',
+    'C08_eq_other': 'equality with a value that is not a rich text is False (== is total)',
+    'C08_matching_partial': 'startswith / endswith / in on objects are EXACT for the part-wise reading (a match spelled inside one markup: soundness + completeness) and sound for the Python string operation on the characters',
+    'C08_matching_neg': 'the recorded finding C08-partwise-matching on witnesses: a prefix / suffix / substring / separator / white-space run that straddles a markup boundary is found by the string operation, not by the code',
+    'C08_split_regex': 'split at the compiled pattern textutils.delimiter_re ([\\s\\-]): the list split of the pairs at the unprotected white-space characters and hyphens, separators kept as pieces; pieces keep the class, are objects, and glued together spell the text; Symbol / Protected never split',
+    'C08_abbreviate': 'abbreviate() acts on the pairs as the composition of split-at-delimiters / isalpha / first pair / add_period / join; protected text is never abbreviated apart; the result is an object',
+    'C08_history_full': 'histories over all operations (add_period with any period, abbreviate, split at delimiter_re included) for any case mapping, in particular the Unicode one where texts change their length',
 }
 LEVEL_TEXT = ('Machine-checked proofs (Lean 4) over an executable model that follows pybtex/richtext.py method by method: the constructor and '
-              'every operation (+, append, join, slicing for ALL integer bounds, indexing, upper/lower, capfirst, capitalize, add_period, '
-              'split() at white space and split at a one-character separator, isalpha, rendering) act on the denoted string of (atom, markup-stack) pairs exactly as '
-              'the corresponding list operation; normal forms are unique, so == coincides with "same class and same string of pairs" and '
+              'every operation (+, append, join, slicing for ALL integer bounds, indexing, upper/lower, capfirst, capitalize, add_period(period) for any period, '
+              'split() at white space, split at a one-character separator and at the compiled pattern delimiter_re, abbreviate, isalpha, startswith / endswith / in, rendering) act on the denoted string of '
+              '(atom, markup-stack) pairs exactly as the corresponding list operation; upper / lower / capitalize / capfirst / isalpha are proved for ANY case '
+              'mapping whose images are lists of characters and are run with the interpreter\'s own Unicode tables (regenerated on every run: ß -> SS keeps its '
+              'markup on both characters); normal forms are unique, so == coincides with "same class and same string of pairs" and '
               'grouping/nesting never matters; all of it lifted to arbitrary finite operation histories by induction.  The model is tied to '
               'the code by a correspondence check that compares, for every tree of an exhaustive small scope x every slice/index/operation '
               'and for random histories, the normal-form tree, the rendering with a tracing backend, str, len and every result.')
-LEVEL_NOTE = ('Trusted: Lean kernel; axioms propext/Classical.choice/Quot.sound only; the model (Model/RichText.lean) corresponds to the code only as '
-              'far as the differential check explores; the reference semantics Spec/RichText.lean (sem, Flat.*, Abs.*) must be read and agreed '
-              'with. Proved for the model WITH the proposed fixes C08-1..5 applied (slice with stop<start, Symbol.__eq__, HRef.external, '
-              'IndexError, empty piece from split) -- on the unpatched tree the check reports these as violations. NOT proved: split at '
-              'multi-character separators and split(None, keep_empty_parts=True) for multipart texts (modelled and compared with the code, no '
-              'list-level law: multi-character separators are matched part-wise by design); completeness of startswith/endswith/in (only soundness is proved; '
-              'exactness on normal forms is checked by the oracle); "operands are never modified" is checked on the implementation only '
-              '(the model is pure). Characters are ASCII / caseless symbols; the deprecated tag alias emph, regex separators, abbreviate(), '
-              'slices with a step and the deprecated pre-0.19 methods are outside the model.')
-RULE = ('one evaluation = one rich-text tree with a list of operations (fan: each applied to the tree; history: applied on top of '
+LEVEL_NOTE = ('Trusted: Lean kernel; axioms propext/Classical.choice/Quot.sound only; the model (Model/RichText.lean, Model/RichTextU.lean) corresponds to the code only as '
+              'far as the differential check explores; the reference semantics Spec/RichText.lean, Spec/RichTextU.lean (sem, Flat.*, Abs.*) must be read and agreed '
+              'with. NOT proved, but specified as list operations on the pairs (Abs.splitG / Abs.splitReG) and compared with the code on every case: split at '
+              'multi-character separators, split(None, keep_empty_parts=True), split at the run pattern -+. startswith / endswith / in and '
+              'these splits match PART-WISE (an occurrence that straddles a markup boundary is not found): proved exact for that reading (C08_matching_partial), '
+              'which differs from the Python string operation on the characters -- recorded finding C08-partwise-matching, reported as KNOWN-FINDING. '
+              'Case laws that relate case and slicing hold on the decidable domain "every unprotected character has one-character images" (C08_case_slice_partial) and fail '
+              'outside it exactly as for Python strings (C08_case_slice_neg). "operands are never modified" is checked on the implementation only '
+              '(the model is pure). Outside the model: U+03A3 (str.lower chooses between σ and ς by context: the generators never emit Σ σ ς), the deprecated tag alias emph, '
+              'tag names / URLs given as Text, slices with a step, the deprecated pre-0.19 methods.')
+RULE = ('one evaluation = one rich-text tree with a list of at most 64 operations (fan: each applied to the tree; history: applied on top of '
         'one another); a slicetab operation evaluates every slice (i, j) in [-n-2, n+2]^2 plus the None bounds; '
         'non-trivial = the tree denotes a non-empty text; distinct by case JSON')
 TRUSTED = ['the tracing backend and the tree builder / dumper of harness/props/c08.py',
-           'str.upper/lower/isalpha are ASCII in the model (texts are drawn from ASCII plus caseless symbols)']
-ASSUMPTIONS = ['characters are ASCII or caseless non-letters; tag names / URLs are plain strings; the deprecated tag alias '
-               '"emph", compiled-regex separators, slices with a step and the pre-0.19 deprecated methods are not modelled']
+           'str.upper / str.lower / str.isalpha of the running interpreter, character by character, as regenerated tables (Gen/UnicodeUpper.lean, '
+           'Gen/UnicodeCase.lean, Gen/Unicode.lean; the generator re-reads its own table against the interpreter on every run); str.upper is context-free, '
+           'str.lower is context-free except for U+03A3']
+ASSUMPTIONS = ['texts do not contain Greek sigma (U+03A3 / U+03C3 / U+03C2: str.lower() of U+03A3 depends on its neighbours, and part-wise lower-casing loses that '
+               'context at part boundaries); tag names / URLs are plain strings; the deprecated tag alias "emph", slices with a step and the pre-0.19 '
+               'deprecated methods are not modelled; compiled patterns handed to split are textutils.delimiter_re and -+ (the two the library uses)']
 
 # ------------------------------------------------------------------------------------------------
 # the implementation side
@@ -124,10 +151,10 @@ def build(tree, top=True):
     k = tree['k']
     if k == 'text':
         return rt.Text(*parts)
-    if k == 'tag':
-        return rt.Tag(tree['n'], *parts)
+    if k == 'tag':      # "nt": the name / URL is handed over as a rich text object (the constructors take str(name))
+        return rt.Tag(rt.Text(tree['n']) if tree.get('nt') else tree['n'], *parts)
     if k == 'href':
-        return rt.HRef(tree['u'], *parts, external=tree['e'])
+        return rt.HRef(rt.Text(rt.Tag('em', tree['u'])) if tree.get('nt') else tree['u'], *parts, external=tree['e'])
     if k == 'prot':
         return rt.Protected(*parts)
     raise ValueError(k)
@@ -276,17 +303,39 @@ def bound_list(lo, hi):
     return [None] + list(range(lo, hi + 1))
 
 
+def operand(x, cur, raw=False):
+    """operand ::= tree | {"self": true}; a string tree stays a plain `str` when `raw`"""
+    if isinstance(x, dict) and 'self' in x:
+        return cur
+    if raw and isinstance(x, str):
+        return x
+    return build(x)
+
+
+_RES = {}
+
+
+def compiled(name):
+    """the compiled patterns the library itself hands to `text.split`"""
+    if name not in _RES:
+        import re
+        from pybtex import textutils
+        _RES[name] = {'delim': lambda: textutils.delimiter_re, 'dashes': lambda: re.compile(r'-+')}[name]()
+    return _RES[name]
+
+
 def apply_op(cur, op):
     """Returns (new current object, res, frozen_ok)."""
     from pybtex import richtext as rt
     o = op['o']
     operands = [cur]
+    raw = bool(op.get('raw'))
     if o in ('add', 'radd', 'append', 'eq'):
-        x = build(op['x'])
-        operands.append(x)
+        operands.append(operand(op['x'], cur, raw))
     elif o == 'join':
-        xs = [build(x) for x in op['xs']]
-        operands.extend(xs)
+        operands.extend(operand(x, cur, raw) for x in op['xs'])
+    elif o == 'add_period' and 'x' in op:
+        operands.append(operand(op['x'], cur, raw))
     before = freeze(operands)
     new, res = _perform(rt, cur, op, o, operands)
     return new, res, freeze(operands) == before
@@ -304,6 +353,13 @@ def _perform(rt, cur, op, o, operands):
         r1 = (cur == x)
         r2 = (x == cur)
         if (cur != x) != (not r1) or (x != cur) != (not r2):
+            return cur, ['!= is not the negation of ==']
+        return cur, [r1, r2]
+    if o == 'eqnt':
+        v = op['v']
+        r1 = (cur == v)
+        r2 = (v == cur)
+        if (cur != v) != (not r1) or (v != cur) != (not r2):
             return cur, ['!= is not the negation of ==']
         return cur, [r1, r2]
     if o == 'join':
@@ -324,16 +380,25 @@ def _perform(rt, cur, op, o, operands):
     if o == 'capitalize':
         return cur.capitalize(), None
     if o == 'add_period':
-        return cur.add_period(), None
+        return (cur.add_period(operands[1]) if len(operands) > 1 else cur.add_period()), None
+    if o == 'abbreviate':
+        try:
+            return cur.abbreviate(), None
+        except IndexError:
+            return cur, 'IndexError'
     if o == 'split':
-        sep = op.get('sep')
         keep = op.get('keep')
+        if op.get('re') is not None:
+            sep = compiled(op['re'])
+            lit = None
+        else:
+            sep = lit = op.get('sep')
         parts = cur.split(sep, keep_empty_parts=keep) if keep is not None else cur.split(sep)
         if not isinstance(parts, list):
             raise TypeError('split did not return a list')
         rejoin = None
-        if sep is not None:
-            rejoin = pack(trace(rt.String(sep).join(parts)))
+        if lit is not None:
+            rejoin = pack(trace(rt.String(lit).join(parts)))
         res = {'parts': [part_snap(p) for p in parts], 'rejoin': rejoin}
         pick = op.get('pick')
         if pick is not None and parts:
@@ -363,7 +428,7 @@ def _perform(rt, cur, op, o, operands):
     raise ValueError(o)
 
 
-QUERIES = ('eq', 'startswith', 'endswith', 'contains', 'isalpha', 'slicetab', 'indextab')
+QUERIES = ('eq', 'eqnt', 'startswith', 'endswith', 'contains', 'isalpha', 'slicetab', 'indextab')
 
 
 def is_query(op):
@@ -392,7 +457,11 @@ def impl(case):
             # a query leaves the current object alone: only its result is reported
             out.append({'r': res, 'f': ok} if is_query(op) else snap(new, res, ok))
             cur = new
-        if freeze(start) != before_start:      # the object the history started from, after everything built on it
+        try:
+            same = freeze(start) == before_start      # the object the history started from, after everything built on it
+        except Exception:       # it cannot even be observed any more
+            same = False
+        if not same:
             out[-1]['f'] = False
         return out
     except Exception as e:
@@ -414,7 +483,7 @@ def model_out(case, reply):
     return steps
 
 
-CLAUSE = {'add': 'concat', 'radd': 'concat', 'construction': 'construction', 'eq': 'equality', 'upper': 'case', 'lower': 'case',
+CLAUSE = {'add': 'concat', 'radd': 'concat', 'construction': 'construction', 'eq': 'equality', 'eqnt': 'equality', 'upper': 'case', 'lower': 'case',
           'startswith': 'prefix_suffix_contains', 'endswith': 'prefix_suffix_contains', 'contains': 'prefix_suffix_contains',
           'slicetab': 'slice', 'indextab': 'index'}
 
@@ -444,7 +513,7 @@ def oracle(case, impl_out, reply):
     computed by plain list operations on the string of (atom, markup) pairs (`spec` of the driver)."""
     spec = reply['spec']
     if not isinstance(impl_out, list):
-        k = len(impl_out.get('partial') or [])
+        k = min(len(impl_out.get('partial') or []), len(case['ops']))
         name = case['ops'][k - 1]['o'] if k else 'construction'
         exp = None
         if k < len(spec):
@@ -483,16 +552,34 @@ def oracle(case, impl_out, reply):
             continue
         ra, rb = a['r'], b['r']
         if name == 'split':
-            if 'parts' in rb:
-                pa = [p[1] for p in ra['parts']]
-                if pa != rb['parts']:
-                    fails.append('split: step %d (%s) of %r: parts differ from the list split: impl=%r expected=%r' % (
-                        i, json.dumps(op), _show(cur).get('sem'), [_show(p) for p in pa], [_show(p) for p in rb['parts']]))
-                    break
+            # rb['parts']: the pieces under the part-wise reading (an occurrence of the separator counts only inside one markup),
+            # rb['full'] (when different): the pieces the string operation gives on the characters whatever their markup
+            pa = [p[1] for p in ra['parts']]
+            want = rb['full'] if rb.get('full') is not None else rb['parts']
+            if pa != want:
+                if rb.get('full') is not None and pa == rb['parts']:
+                    fails.append('partwise_matching: step %d (%s) of %r: a separator occurrence that straddles a markup boundary is not split at: '
+                                 'impl=%r, the string operation on the characters gives %r' % (
+                                     i, json.dumps(op), _show(cur).get('sem'), [_show(p).get('sem') for p in pa], [_show(p).get('sem') for p in want]))
+                    continue        # recorded finding; the remaining steps are still evaluated
+                fails.append('split: step %d (%s) of %r: parts differ from the list split: impl=%r expected=%r' % (
+                    i, json.dumps(op), _show(cur).get('sem'), [_show(p) for p in pa], [_show(p) for p in want]))
+                break
             if rb.get('rejoin') is not None and ra['rejoin'] != rb['rejoin']:
                 fails.append('split_join: step %d (%s): sep.join(t.split(sep)) renders %r, the list semantics gives %r' % (
                     i, json.dumps(op), _show(ra['rejoin']), _show(rb['rejoin'])))
                 break
+        elif name in ('startswith', 'endswith', 'contains'):
+            # rb['full']: the Python string operation on the characters; rb['part']: only matches spelled inside one markup
+            if isinstance(ra, bool) and ra == rb['full']:
+                continue
+            if isinstance(ra, bool) and ra == rb['part']:
+                fails.append('partwise_matching: step %d (%s) on %r: result %r although the characters of the text match '
+                             '(the match straddles a markup boundary)' % (i, json.dumps(op), _show(cur).get('sem'), ra))
+                continue            # recorded finding; the remaining steps are still evaluated
+            fails.append('%s: step %d (%s) on %r: result %r, list semantics gives %r' % (
+                clause, i, json.dumps(op), _show(cur).get('sem'), ra, rb['full']))
+            break
         elif name in ('slicetab', 'indextab'):
             if ra['idx'] == rb['idx'] and [v[1] for v in ra['vals']] == rb['vals']:
                 continue
@@ -523,6 +610,12 @@ def oracle(case, impl_out, reply):
                 clause, i, json.dumps(op), _show(cur).get('sem'), ra, rb))
             break
     return fails
+
+
+# the recorded finding (known_findings.json): the oracle tags a failure with `partwise_matching` only when the implementation's
+# answer is EXACTLY the part-wise reading (matches / separator occurrences inside one markup) and differs from the string operation
+# on the characters, i.e. only when an occurrence straddles a markup boundary; any other deviation is a violation of its clause
+KNOWN_MATCHERS = {'C08-partwise-matching': lambda case, impl_out, failure_text: failure_text.startswith('partwise_matching: ')}
 
 
 def _stop_before_start(n, i, j):
@@ -563,7 +656,7 @@ def _valid_tree(t, depth=0):
     if depth > 40:
         return False
     if isinstance(t, str):
-        return True
+        return SIGMA not in t
     if not isinstance(t, dict):
         return False
     if 'y' in t:
@@ -571,47 +664,63 @@ def _valid_tree(t, depth=0):
     k = t.get('k')
     if k not in ('text', 'tag', 'href', 'prot') or not isinstance(t.get('p'), list):
         return False
-    if k == 'tag' and (not isinstance(t.get('n'), str) or t['n'] == 'emph'):
+    if k == 'tag' and (not isinstance(t.get('n'), str) or t['n'] == 'emph'):      # the deprecated alias is outside the model
         return False
     if k == 'href' and not (isinstance(t.get('u'), str) and isinstance(t.get('e'), bool)):
+        return False
+    if t.get('nt') not in (None, True, False):
         return False
     return all(_valid_tree(p, depth + 1) for p in t['p'])
 
 
 _UNARY = ('upper', 'lower', 'capfirst', 'capitalize', 'add_period', 'isalpha')
+SIGMA = '\u03a3'      # the only character whose lower() depends on its neighbours: outside the modelled domain
 
 
 def _int_or_none(x):
     return x is None or (isinstance(x, int) and not isinstance(x, bool))
 
 
+def _valid_operand(x, raw=False):
+    if isinstance(x, dict) and 'self' in x:
+        return x == {'self': True}
+    return _valid_tree(x)
+
+
 def _valid_op(op):
     if not isinstance(op, dict):
         return False
     o = op.get('o')
+    if op.get('raw') not in (None, True, False):
+        return False
     if o in ('add', 'radd', 'append', 'eq'):
-        return _valid_tree(op.get('x'))
+        if op.get('raw') and (o in ('radd', 'eq') or not isinstance(op.get('x'), str)):
+            return False            # 'abc' + text is str.__add__ (TypeError), not a rich-text operation
+        return _valid_operand(op.get('x'))
+    if o == 'eqnt':
+        v = op.get('v', 0)
+        return 'v' in op and (v is None or isinstance(v, (str, int, list))) and not isinstance(v, bool)
     if o == 'join':
-        return isinstance(op.get('xs'), list) and all(_valid_tree(x) for x in op['xs'])
+        return isinstance(op.get('xs'), list) and all(_valid_operand(x) for x in op['xs'])
     if o == 'slice':
         return _int_or_none(op.get('i')) and _int_or_none(op.get('j'))
     if o == 'index':
         return isinstance(op.get('i'), int) and not isinstance(op.get('i'), bool)
-    if o in _UNARY:
+    if o == 'add_period' and 'x' in op:
+        return _valid_operand(op['x'])
+    if o in _UNARY or o == 'abbreviate':
         return True
     if o == 'split':
         sep = op.get('sep')
-        if not (sep is None or (isinstance(sep, str) and sep)):
+        if op.get('re') is not None:
+            if op['re'] not in ('delim', 'dashes') or sep is not None:
+                return False
+        elif not (sep is None or (isinstance(sep, str) and sep)):
             return False
         if op.get('keep') not in (None, True, False):
             return False
         pick = op.get('pick')
-        if pick is None:
-            return True
-        if not isinstance(pick, int) or pick < 0:
-            return False
-        keep = op.get('keep') if op.get('keep') is not None else (sep is not None)
-        return (sep is None and not keep) or (sep is not None and len(sep) == 1)
+        return pick is None or (isinstance(pick, int) and not isinstance(pick, bool) and pick >= 0)
     if o in ('startswith', 'endswith'):
         return isinstance(op.get('p'), list) and len(op['p']) > 0 and all(isinstance(x, str) for x in op['p'])
     if o == 'contains':
@@ -664,9 +773,15 @@ def is_node(t):
 
 OPERANDS = ['', 'a', SYM, node(KINDS[1], ['a']), node(KINDS[2], ['b']), node(KINDS[3], ['a']), node(KINDS[4], ['a']),
             node(KINDS[5], ['B c']), node(KINDS[0], ['a', node(KINDS[1], ['b.'])]), node(KINDS[1], []), '.']
-PREFIXES = [[''], ['a'], ['B'], ['B c'], ['.'], ['a-'], ['c'], ['b'], ['.', '?', '!'], ['x', 'a']]
-NEEDLES = ['', 'a', 'B c', ' ', '-', 'aa', 'a.', 'ca', 'nbsp']
-SEPS = [None, ' ', '-', '.', 'a', 'B c', 'c.']
+PREFIXES = [[''], ['a'], ['B'], ['B c'], ['.'], ['a-'], ['c'], ['b'], ['.', '?', '!'], ['x', 'a'], ['aB'], ['B ca'], ['ca', 'c.']]
+NEEDLES = ['', 'a', 'B c', ' ', '-', 'aa', 'a.', 'ca', 'nbsp', 'aB', 'c<']
+SEPS = [None, ' ', '-', '.', 'a', 'B c', 'c.', 'aB', 'ca', ' c']
+RES = ['delim', 'dashes']
+SELF = {'self': True}
+# add_period(period): another terminator, a Text, a Tag, an empty period, the text itself; plain `str` and String
+PERIODS = [('!', True), ('!', False), (node(KINDS[0], ['?', node(KINDS[1], ['!'])]), False), (node(KINDS[1], ['.']), False),
+           (node(KINDS[0], []), False), (SYM, False), (SELF, False), ('', True)]
+NONTEXT = ['a', '', 'B c', None, 5, 0, ['a'], []]
 
 
 def regroupings(t):
@@ -699,23 +814,43 @@ def regroupings(t):
     return out
 
 
-def fan_ops(t, reduced=False):
+def fan_ops(t, reduced=False, light=False):
     """Every single-step operation tried on a tree; `reduced` (used for the large depth-2 family of the thorough tier):
-    the same operations with about half of the operands / separators / probes."""
+    the same operations with about half of the operands / separators / probes; `light` (depth-2 family of the quick tier):
+    every second of the periods / non-text values / plain-str and same-object operands."""
     n = tree_len(t)
     ops = [{'o': 'slicetab', 'lo': -n - 2, 'hi': n + 2}, {'o': 'indextab', 'lo': -n - 2, 'hi': n + 2}]
-    ops += [{'o': o} for o in _UNARY]
+    ops += [{'o': o} for o in _UNARY] + [{'o': 'abbreviate'}]
     pick = (lambda l: l[::2]) if reduced else (lambda l: l)
-    for sep in pick(SEPS):
+    # `light`: without the separators / prefixes / needles that only matter across part boundaries (N_BASE_* = the first ones)
+    base = (lambda l, n: l[:n]) if light and not reduced else (lambda l, n: l)
+    for sep in pick(base(SEPS, 7)):
         for keep in (None, True, False):
             ops.append({'o': 'split', 'sep': sep, 'keep': keep, 'pick': None})
-    ops += [{'o': 'startswith', 'p': p} for p in pick(PREFIXES)] + [{'o': 'endswith', 'p': p} for p in pick(PREFIXES)]
-    ops += [{'o': 'contains', 's': s} for s in pick(NEEDLES)]
+    for r in RES:
+        for keep in ((None,) if light else (None, True, False)):
+            ops.append({'o': 'split', 're': r, 'keep': keep, 'pick': None})
+    ops += [{'o': 'startswith', 'p': p} for p in pick(base(PREFIXES, 10))] + [{'o': 'endswith', 'p': p} for p in pick(base(PREFIXES, 10))]
+    ops += [{'o': 'contains', 's': s} for s in pick(base(NEEDLES, 9))]
     for x in pick(OPERANDS):
         ops += [{'o': 'add', 'x': x}, {'o': 'radd', 'x': x}, {'o': 'append', 'x': x}, {'o': 'eq', 'x': x}]
     ops += [{'o': 'eq', 'x': x} for x in regroupings(t)]
     ops += [{'o': 'join', 'xs': []}, {'o': 'join', 'xs': ['a']}, {'o': 'join', 'xs': ['a', node(KINDS[1], ['b']), SYM]},
             {'o': 'join', 'xs': [t, t]}]
+    pick2 = (lambda l: l[::2]) if (reduced or light) else (lambda l: l)
+    # add_period(period) for periods other than the default
+    ops += [dict({'o': 'add_period', 'x': x}, **({'raw': True} if raw else {})) for x, raw in pick2(PERIODS)]
+    # == against values that are not rich texts (False, never raises); str(t) itself is the near miss
+    ops += [{'o': 'eqnt', 'v': v} for v in pick2(NONTEXT)]
+    if isinstance(t, str):
+        ops.append({'o': 'eqnt', 'v': t})
+    # plain `str` operands (the constructors wrap them)
+    ops += pick2([{'o': 'add', 'x': 'a', 'raw': True}, {'o': 'append', 'x': 'B c', 'raw': True}, {'o': 'add', 'x': '', 'raw': True},
+                  {'o': 'join', 'xs': ['a', node(KINDS[1], ['b']), 'c'], 'raw': True}, {'o': 'append', 'x': '', 'raw': True},
+                  {'o': 'join', 'xs': ['a', 'b', ''], 'raw': True}])
+    # the same object as receiver and operand
+    ops += pick2([{'o': 'add', 'x': SELF}, {'o': 'join', 'xs': [SELF]}, {'o': 'append', 'x': SELF}, {'o': 'eq', 'x': SELF},
+                  {'o': 'join', 'xs': [SELF, SELF, 'a']}])
     return ops
 
 
@@ -757,11 +892,61 @@ def level3_samples():
             yield node(a, [node(text, [node(b, ['a']), node(text, [node(b, ['b'])])]), node(c, [node(c, ['q'])])])
 
 
-RICH_STRS = ['', 'a', 'B c', '.', 'a-b', 'Hello, World', 'x?', 'No!', '  ', ' lead', 'trail ', 'a b', 'tab\there', '3 €', 'ZZ',
-             'mixed Case-Words', '-', '--', 'q.', 'e.g. this', '\n', 'A']
+# white space other than blank / tab / newline / NBSP (all 29 code points of Python's \s occur), non-ASCII cased letters
+# (one-character images: é É ǅ Cyrillic ...; longer images: ß -> SS, ŉ -> ʼN, ǰ, İ -> i̇, ﬁ -> FI, ΐ), caseless letters, cased non-letters
+WS_STRS = ['a\rb', 'a\x0bb', 'a\x0c b', '\x1ca', 'a\x85', 'a\u2028b', 'a\u3000 b', ' \r\x0b', 'x\x1d\x1e\x1fy', '\u2029a\u205f\u1680',
+           'a\u2000\u2001\u2002\u2003\u2004b', '\u2005\u2006\u2007a\u2008\u2009\u200a', '\u202fa', 'a\tb\nc\xa0d']
+UNI_STRS = ['é', 'É', 'éÉ x', 'ǅ', 'ǆǅǄ', 'Привет мир', 'жЖ', 'ß', 'Straße', 'ŉ', 'ǰ', 'İ', 'aİb', 'ﬁ', 'ΐ', '毛', 'Ⓐⓐ', '\u212a',
+             'µ', 'ÿ', 'ſ', 'ÀÉ-îö', 'éa-Éb', 'e\u0301']
+assert not any(ch in x for x in WS_STRS + UNI_STRS for ch in 'Σσς')
+RICH_STRS = ['', 'a', 'B c', '.', 'a-b', 'Hello, World', 'x?', 'No!', '  ', ' lead', 'trail ', 'a b', 'tab\there', '3 €', 'ZZ',
+             'mixed Case-Words', '-', '--', 'q.', 'e.g. this', '\n', 'A'] + WS_STRS[:8] + UNI_STRS[:16]
 RICH_TAGS = ['em', 'strong', 'i', 'tt']
 RICH_URLS = ['http://x/', 'u']
 RICH_SYMS = ['nbsp', 'ndash', 'newblock']
+
+
+def uni_family():
+    """Every white-space / Unicode string in a few shapes x (case operations, isalpha, abbreviate, every split, every slice)."""
+    em, prot, text = KINDS[1], KINDS[5], KINDS[0]
+    for x in WS_STRS + UNI_STRS:
+        trees = [x, node(text, [x]), node(em, [x]), node(prot, [x]), node(text, [node(em, [x[:1]]), x[1:]]),
+                 node(text, [x, node(prot, [x]), node(em, [x])]), node(em, [x[:1], SYM, x[1:]])]
+        for t in trees:
+            n = tree_len(t)
+            ops = [{'o': o} for o in _UNARY] + [{'o': 'abbreviate'}, {'o': 'slicetab', 'lo': -n - 2, 'hi': n + 2}]
+            for sep in (None, x[:1], x[:2]):
+                if sep is None or sep:
+                    ops += [{'o': 'split', 'sep': sep, 'keep': keep, 'pick': None} for keep in (None, True, False)]
+            ops += [{'o': 'split', 're': r, 'keep': keep, 'pick': None} for r in RES for keep in (None, False)]
+            ops += [{'o': 'startswith', 'p': [x[:1]]}, {'o': 'endswith', 'p': [x[-1:]]}, {'o': 'contains', 's': x[:2]},
+                    {'o': 'eqnt', 'v': x}, {'o': 'add', 'x': x, 'raw': True}]
+            yield {'op': 'richtext', 'tree': t, 'fan': True, 'ops': ops}
+        if x in WS_STRS:
+            continue
+        # then on top of a case change (the text may have become longer): every slice, the other case, isalpha
+        for t in (trees[0], trees[4], trees[5]):
+            m = min(2 * tree_len(t) + 2, 9)
+            for u in ('upper', 'lower', 'capitalize', 'capfirst'):
+                yield {'op': 'richtext', 'tree': t, 'fan': False,
+                       'ops': [{'o': u}, {'o': 'slicetab', 'lo': -m, 'hi': m}, {'o': 'lower'}, {'o': 'upper'}, {'o': 'isalpha'}]}
+
+
+WS_LEAVES = [' ', 'a ', ' b', '-', '- ', node(KINDS[1], [' ']), node(KINDS[1], ['-a']), node(KINDS[5], [' -']), SYM]
+
+
+def ws_family(tier):
+    """Separators (white space, hyphens, two-character literals) at and across the boundaries between parts: every sequence of
+    <= 2 (thorough: 3) parts over WS_LEAVES in Text / Tag / Protected x every split (all keep_empty_parts) x abbreviate."""
+    maxlen = 2 if tier == 'quick' else 3
+    ops = [{'o': 'abbreviate'}]
+    for sep in (None, ' ', '-', '- ', ' -', '  ', 'a '):
+        ops += [{'o': 'split', 'sep': sep, 'keep': keep, 'pick': None} for keep in (None, True, False)]
+    ops += [{'o': 'split', 're': r, 'keep': keep, 'pick': None} for r in RES for keep in (None, True, False)]
+    ops += [{'o': 'startswith', 'p': [' ', '-']}, {'o': 'endswith', 'p': ['  ', '- ']}, {'o': 'contains', 's': '  '}, {'o': 'contains', 's': ' -'}]
+    for k in (KINDS[0], KINDS[1], KINDS[5]):
+        for ps in seqs(WS_LEAVES, maxlen, 1):
+            yield {'op': 'richtext', 'tree': node(k, ps), 'fan': True, 'ops': ops}
 
 
 def random_tree(rng, depth, top=False):
@@ -782,31 +967,54 @@ def random_tree(rng, depth, top=False):
     return node(kind, [random_tree(rng, depth - 1) for _ in range(rng.randint(0, 4))])
 
 
+def random_operand(rng, depth, top):
+    if rng.random() < 0.08:
+        return SELF
+    return random_tree(rng, depth, top)
+
+
 def random_op(rng, depth=2):
     r = rng.random()
-    if r < 0.22:
+    if r < 0.20:
         return {'o': 'slice', 'i': rng.choice([None] + list(range(-12, 13))), 'j': rng.choice([None] + list(range(-12, 13)))}
-    if r < 0.27:
+    if r < 0.25:
         return {'o': 'index', 'i': rng.randint(-8, 8)}
-    if r < 0.45:
-        return {'o': rng.choice(['upper', 'lower', 'capfirst', 'capitalize', 'add_period', 'isalpha'])}
+    if r < 0.42:
+        return {'o': rng.choice(['upper', 'lower', 'capfirst', 'capitalize', 'add_period', 'isalpha', 'abbreviate'])}
+    if r < 0.46:
+        x = random_operand(rng, 1, rng.random() < 0.5)
+        op = {'o': 'add_period', 'x': x}
+        if isinstance(x, str) and rng.random() < 0.5:
+            op['raw'] = True
+        return op
     if r < 0.62:
-        return {'o': rng.choice(['add', 'radd', 'append', 'append']), 'x': random_tree(rng, depth, rng.random() < 0.7)}
+        o = rng.choice(['add', 'radd', 'append', 'append'])
+        x = random_operand(rng, depth, rng.random() < 0.7)
+        op = {'o': o, 'x': x}
+        if isinstance(x, str) and o != 'radd' and rng.random() < 0.5:
+            op['raw'] = True
+        return op
     if r < 0.68:
-        return {'o': 'join', 'xs': [random_tree(rng, 1, rng.random() < 0.5) for _ in range(rng.randint(0, 3))]}
+        op = {'o': 'join', 'xs': [random_operand(rng, 1, rng.random() < 0.5) for _ in range(rng.randint(0, 3))]}
+        if rng.random() < 0.5:
+            op['raw'] = True
+        return op
     if r < 0.80:
-        sep = rng.choice([None, None, ' ', '-', '.', ',', 'a', ', ', 'B c'])
         keep = rng.choice([None, None, True, False])
-        kd = keep if keep is not None else (sep is not None)
-        specified = (sep is None and not kd) or (sep is not None and len(sep) == 1)
-        return {'o': 'split', 'sep': sep, 'keep': keep, 'pick': rng.randint(0, 5) if specified and rng.random() < 0.7 else None}
+        pick = rng.randint(0, 5) if rng.random() < 0.6 else None
+        if rng.random() < 0.2:
+            return {'o': 'split', 're': rng.choice(RES), 'keep': keep, 'pick': pick}
+        sep = rng.choice([None, None, ' ', '-', '.', ',', 'a', ', ', 'B c', '  ', 'é', '\r', 'll', '. '])
+        return {'o': 'split', 'sep': sep, 'keep': keep, 'pick': pick}
     if r < 0.86:
         return {'o': rng.choice(['startswith', 'endswith']),
-                'p': rng.choice([['a'], ['B'], [''], ['.', '?', '!'], ['Hello'], ['d'], [' '], ['A', 'a']])}
+                'p': rng.choice([['a'], ['B'], [''], ['.', '?', '!'], ['Hello'], ['d'], [' '], ['A', 'a'], ['é'], ['aB', 'a '], ['.a', 'c.']])}
     if r < 0.90:
-        return {'o': 'contains', 's': rng.choice(['', 'a', 'B c', 'o, W', ' ', '-', 'nbsp', 'll'])}
-    if r < 0.96:
-        return {'o': 'eq', 'x': random_tree(rng, depth, True)}
+        return {'o': 'contains', 's': rng.choice(['', 'a', 'B c', 'o, W', ' ', '-', 'nbsp', 'll', 'aB', 'ca', 'é', '. '])}
+    if r < 0.95:
+        return {'o': 'eq', 'x': random_operand(rng, depth, True)}
+    if r < 0.97:
+        return {'o': 'eqnt', 'v': rng.choice(NONTEXT + RICH_STRS[:6])}
     return {'o': 'slicetab', 'lo': -4, 'hi': 4}
 
 
@@ -822,16 +1030,23 @@ def random_case(rng):
     return {'op': 'richtext', 'tree': t, 'fan': False, 'ops': ops}
 
 
+FAN_CHUNK = 64
+
+
 def gen_cases(tier, rng, info):
     cases = []
     trees0 = list(LEAVES)
     trees1 = list(level1(tier))
     trees2 = list(level2(tier))
     trees3 = list(level3_samples())
+    def fan(t, ops):
+        # the single-step operations of one tree, in cases of at most FAN_CHUNK operations (small replays, quick shrinking)
+        for k in range(0, len(ops), FAN_CHUNK):
+            cases.append({'op': 'richtext', 'tree': t, 'fan': True, 'ops': ops[k:k + FAN_CHUNK]})
     for t in trees0 + trees1 + trees3:
-        cases.append({'op': 'richtext', 'tree': t, 'fan': True, 'ops': fan_ops(t)})
+        fan(t, fan_ops(t))
     for t in trees2:
-        cases.append({'op': 'richtext', 'tree': t, 'fan': True, 'ops': fan_ops(t, reduced=(tier != 'quick'))})
+        fan(t, fan_ops(t, reduced=(tier != 'quick'), light=True))
     # second layer: a case-changing / period-adding operation first, then every slice of the result
     second = trees1 if tier != 'quick' else [t for t in trees1 if len(t['p']) <= 2]
     for t in second:
@@ -839,16 +1054,24 @@ def gen_cases(tier, rng, info):
         for u in ('upper', 'lower', 'capitalize', 'capfirst', 'add_period'):
             cases.append({'op': 'richtext', 'tree': t, 'fan': False,
                           'ops': [{'o': u}, {'o': 'slicetab', 'lo': -n - 2, 'hi': n + 2}, {'o': 'indextab', 'lo': -n - 2, 'hi': n + 2}]})
+    uni = list(uni_family())
+    wsf = list(ws_family(tier))
+    cases += uni + wsf
     info['exhaustive'] = True
     info['scope'] = ('every tree in: %d leaves; %d depth-1 trees (6 kinds x <=3 parts over %r + one symbol; quick: 3 parts only over 4 leaves); %d depth-2 trees (%s); '
                      '%d depth-3 cascade shapes -- each x every slice (i, j) in [-n-2, n+2]^2 + None bounds x every index x every '
-                     'operation (case, capfirst/capitalize, add_period, isalpha, %d split variants, %d prefixes/suffixes, %d needles, '
-                     '+/radd/append/== with %d operands, == with all regroupings, join; thorough: every second of these probes on the '
-                     'depth-2 family); plus %d depth-1 trees x 5 unary operations followed by every slice of the result' % (
+                     'operation (case, capfirst/capitalize, add_period with %d periods, isalpha, abbreviate, %d split variants incl. 2 compiled patterns, '
+                     '%d prefixes/suffixes, %d needles, +/radd/append/== with %d operands, == with all regroupings and with %d non-text values, join, '
+                     'plain-str operands, the object itself as operand; thorough: every second of these probes on the '
+                     'depth-2 family); plus %d depth-1 trees x 5 unary operations followed by every slice of the result; plus %d white-space / Unicode '
+                     'strings (all 29 white-space code points; cased non-ASCII letters with one-character and with longer images) in 7 shapes x '
+                     '(case operations, isalpha, abbreviate, splits, every slice before and after a case change) = %d cases; plus %d trees of '
+                     '<=%d parts over %d separator-laden leaves x every split / abbreviate' % (
                          len(trees0), len(trees1), STRS, len(trees2),
                          'quick: Text/Tag/Protected x <=2 children from 4 leaves + 24 inner nodes with <=1 part' if tier == 'quick' else
                          'thorough: 6 kinds x <=2 children from 3 leaves + 78 inner nodes with <=2 parts',
-                         len(trees3), len(SEPS) * 3, len(PREFIXES), len(NEEDLES), len(OPERANDS), len(second)))
+                         len(trees3), len(PERIODS) + 1, (len(SEPS) + len(RES)) * 3, len(PREFIXES), len(NEEDLES), len(OPERANDS), len(NONTEXT),
+                         len(second), len(WS_STRS + UNI_STRS), len(uni), len(wsf), 2 if tier == 'quick' else 3, len(WS_LEAVES)))
     nrand = 4000 if tier == 'quick' else 100000
     for _ in range(nrand):
         cases.append(random_case(rng))
